@@ -676,6 +676,8 @@ CONTEXTS = [
     ("tagged_arg", "function m() { return tag`x${%s}`; }"), ("yield_arg", "function* m() { yield %s; }"), ("await_arg", "async function m() { await %s; }"),
     ("tpl_directive_like", "function m() { `use strict`; return %s; }"), ("tpl_directive_like_arrow", "const fn = () => { 'ngInject'; `use strict`; return %s; };"),
     ("async_arrow_concise", "function m() { return async () => await g() + %s; }"), ("seq_nested", "function m() { y = f() + (%s, b); }"),
+    ("stray_directive", "function m() { 'use strict'; var x = %s; 'use strict'; var y = a + f(); return y; }"),
+    ("stray_string_stmt", "function m() { v = %s; 'not a directive'; { w = a + f(); 'x'; } }"),
     ("derived_method", "class C extends K { #p = 1; m(a, b, k) { return %s; } }"),
     ("class_method", "class C { m() { return %s; } }"), ("class_static_field", "function m() { class C { static s = %s; } }"),
     ("class_field", "function m() { class C { f = %s; } }"), ("class_field_top", "class C { f = %s; }"),
